@@ -64,7 +64,7 @@ def rand_attr(rng, nss):
         return (ns, nm, None, 1, rng.choice((0x7F010001, 0x01040000, 0, 0x0101021B)))
     if r < 0.93:
         return (ns, nm, None, 2, rng.choice((0x7F010001, 0x01010000)))
-    return (ns, nm, None, 0x1C, rng.choice((0xFF00FF00, 0x12345678, 0)))
+    return (ns, nm, None, rng.choice((0x1C, 0x1D, 0x1E, 0x1F)), rng.choice((0xFF00FF00, 0x12345678, 0, 0xFFFFFFFF)))
 
 
 def rand_el(rng, depth, nss):
@@ -119,8 +119,13 @@ def impl(case):
     inv = public.SYSTEM_RESOURCES["attributes"]["inverse"]
     sysattr = [[i, [ord(c) for c in inv[i]]] for i in sorted(RESIDS.values()) if i in inv]
     root = a.get_xml_obj()
-    return {"valid": bool(a.is_valid()), "tree": None if root is None else walk(root), "raw": raw, "sysattr": sysattr,
-            "xml": None if root is None else a.get_xml(pretty=False).decode("utf-8", "replace")}
+    tree = None if root is None else walk(root)
+    xml = None if root is None else a.get_xml(pretty=False).decode("utf-8", "replace")
+    again = None
+    if root is not None:
+        a.get_xml()                                   # the default, indented rendering: a getter, it must leave the tree alone
+        again = walk(a.get_xml_obj())
+    return {"valid": bool(a.is_valid()), "tree": tree, "tree_after_get_xml": again, "raw": raw, "sysattr": sysattr, "xml": xml}
 
 
 def canon(res):
@@ -143,7 +148,7 @@ def fmt(atype, data):
         return "false" if data == 0 else "true"
     if atype in (1, 2):
         return "%s%s%08X" % ("@" if atype == 1 else "?", "android:" if data >> 24 == 1 else "", data)
-    if atype == 0x1C:
+    if 0x1C <= atype <= 0x1F:
         return "#%08X" % data
     raise ValueError(atype)
 
@@ -201,6 +206,8 @@ def oracle(case, res):
         return "a well-formed document is reported as invalid"
     if res["tree"] != enc(want[0]):
         return "printed tree differs from the encoded document: %s" % res["xml"][:400]
+    if res["tree_after_get_xml"] != res["tree"]:
+        return "the tree differs after a call of get_xml(): %s" % res["xml"][:300]
     return None
 
 
